@@ -1038,7 +1038,9 @@ func generate(rng *hx.Rand, thorough bool, jobs chan<- func() string) {
 		// mostly valid: for most tags, an element of that name somewhere
 		for _, t := range tags {
 			if t.none == "" && rng.Chance(3, 4) {
-				if parts := strings.Split(t.tag, " "); len(parts) == 2 {
+				// (only for the well-formed tags: what encoding/xml makes of a struct
+				// whose tag has an empty local name is not part of the model)
+				if parts := strings.Split(t.tag, " "); len(parts) == 2 && parts[1] != "" {
 					id++
 					ps := &c.pss[rng.Intn(len(c.pss))]
 					r := &rspec{tok: xml.StartElement{Name: xml.Name{Space: parts[0], Local: parts[1]},
